@@ -15,6 +15,7 @@ import (
 	"vharness/app"
 	"vharness/apps"
 	"vharness/c07"
+	"vharness/snap"
 	"vharness/vrt"
 )
 
@@ -44,63 +45,11 @@ func long(n int) []byte {
 	return b
 }
 
-// Snap is a structural copy of what a later request can observe.
-type Snap struct {
-	path   []string
-	idx    uint16
-	flags  []byte
-	code   []byte
-	moves  uint32
-	frames []map[string]string
-	sizes  map[string]uint16
-	use    uint32
-}
+// Snap, Take, Same: see package snap.
+type Snap = snap.Snap
 
-func Take(st *state.State, ca *cache.Cache) Snap {
-	s := Snap{path: append([]string{}, st.ExecPath...), idx: st.SizeIdx, flags: append([]byte{}, st.Flags...),
-		code: append([]byte{}, st.Code...), moves: st.Moves, use: ca.CacheUseSize, sizes: map[string]uint16{}}
-	for _, fr := range ca.Cache {
-		m := map[string]string{}
-		for k, x := range fr {
-			m[k] = x
-		}
-		s.frames = append(s.frames, m)
-	}
-	for k, x := range ca.Sizes {
-		s.sizes[k] = x
-	}
-	return s
-}
-
-func Same(v *vrt.Ctx, a, b Snap) bool {
-	if len(a.path) != len(b.path) || len(a.flags) != len(b.flags) || len(a.code) != len(b.code) || len(a.frames) != len(b.frames) || len(a.sizes) != len(b.sizes) {
-		return false
-	}
-	ok := v.And(a.idx == b.idx, v.And(a.moves == b.moves, a.use == b.use))
-	for i := range a.path {
-		ok = v.And(ok, a.path[i] == b.path[i])
-	}
-	for i := range a.flags {
-		ok = v.And(ok, a.flags[i] == b.flags[i])
-	}
-	for i := range a.code {
-		ok = v.And(ok, a.code[i] == b.code[i])
-	}
-	for i := range a.frames {
-		if len(a.frames[i]) != len(b.frames[i]) {
-			return false
-		}
-		for k, x := range a.frames[i] {
-			y, have := b.frames[i][k]
-			ok = v.And(ok, v.And(have, x == y))
-		}
-	}
-	for k, x := range a.sizes {
-		y, have := b.sizes[k]
-		ok = v.And(ok, v.And(have, x == y))
-	}
-	return ok
-}
+var Take = snap.Take
+var Same = snap.Same
 
 type world struct {
 	v         *vrt.Ctx
@@ -257,6 +206,3 @@ var Harnesses = map[string]func(*vrt.Ctx){
 	"TwoRun":     TwoRun,
 	"FlushFirst": FlushFirst,
 }
-
-// Moves: the number of navigation moves recorded in the snapshot.
-func (s Snap) Moves() uint32 { return s.moves }
